@@ -218,3 +218,70 @@ func LongestAxis(size model3d.Coord3D) int {
 	}
 	return 2
 }
+
+type tree struct {
+	V           float64
+	Less, Great *tree
+}
+
+func (t *tree) Empty() bool { return t == nil }
+
+// clean:NILRECV
+func (t *tree) Sum() float64 {
+	if t == nil {
+		return 0
+	}
+	return t.V + t.Less.Sum() + t.Great.Sum()
+}
+
+// clean:NILRECV the helper tests for nil.
+func (t *tree) Depth() int {
+	return t.depth()
+}
+
+func (t *tree) depth() int {
+	if t == nil {
+		return 0
+	}
+	return 1 + t.Less.depth()
+}
+
+// want:NILRECV the helper relies on callers that test, and this one does not.
+func (t *tree) Count() int {
+	return t.count()
+}
+
+func (t *tree) count() int {
+	n := 1
+	if t.Less != nil {
+		n += t.Less.count()
+	}
+	if t.Great != nil {
+		n += t.Great.count()
+	}
+	return n
+}
+
+// want:UNITNORMAL the image of a unit vector under a transform is not unit.
+func OuterNormalBad(w *wrapper, rc model3d.RayCollision) model3d.RayCollision {
+	var zero model3d.Coord3D
+	return model3d.RayCollision{
+		Scale:  rc.Scale,
+		Normal: w.t.Apply(rc.Normal).Sub(w.t.Apply(zero)),
+	}
+}
+
+// clean:UNITNORMAL
+func OuterNormalGood(w *wrapper, rc model3d.RayCollision) model3d.RayCollision {
+	var zero model3d.Coord3D
+	return model3d.RayCollision{
+		Scale:  rc.Scale,
+		Normal: w.t.Apply(rc.Normal).Sub(w.t.Apply(zero)).Normalize(),
+	}
+}
+
+// clean:UNITNORMAL flipping keeps the length.
+func FlipNormal(rc model3d.RayCollision) model3d.RayCollision {
+	rc.Normal = rc.Normal.Scale(-1)
+	return rc
+}
